@@ -229,10 +229,70 @@ pub fn gen_seq(property: &str, profile: &str, seed: u64) -> Plan {
     plan
 }
 
+pub fn gen_damage(rng: &mut Rng) -> Vec<AtRest> {
+    let mut d = Vec::new();
+    let n = match rng.below(10) {
+        0..=1 => 0,
+        2..=7 => 1,
+        _ => 2,
+    };
+    for _ in 0..n {
+        let blob = rng.below(8) as usize;
+        d.push(match rng.below(12) {
+            0 | 1 => AtRest::IndexRemove { blob },
+            2 | 3 | 4 => AtRest::IndexTruncateFrac { blob, permille: rng.below(1000) as u32 },
+            5 => AtRest::IndexTruncate { blob, len: rng.range(0, 200) },
+            6 => AtRest::IndexHeaderOnly { blob },
+            7 | 8 => AtRest::IndexClearWritten { blob },
+            _ => AtRest::IndexStale { blob },
+        });
+    }
+    d
+}
+
+/// Multi-restart histories with damage to index files between the sessions (C03).
+pub fn gen_restart(property: &str, profile: &str, seed: u64) -> Plan {
+    let (mut plan, mut sw) = base_plan(property, profile, seed);
+    // closed blobs must exist and be indexed: small blobs, short dump deferral
+    plan.store.max_data_in_blob = *sw.rng.pick(&[1u64, 2, 2, 3, 4, 6]);
+    if sw.rng.chance(1, 2) {
+        plan.store.deferred_min_ms = 100;
+        plan.store.deferred_max_ms = 300;
+    }
+    let sweep = profile.contains("sweep");
+    let n_ops = sw.rng.range(6, if sweep { 25 } else { 45 }) as usize;
+    let mix = Mix { write: 50, delete: 22, idle: 6, lifecycle: 0, lifecycle_bg: 0, force: 0, free: 0, offload: 0, fsync: 0, restart: 0, clock: 0 };
+    let mut ops = Vec::new();
+    for i in 0..n_ops {
+        if i > 2 && sw.rng.chance(1, 7) && !sweep {
+            let uid = sw.uid();
+            ops.push(Op { uid, think_ms: 0, kind: OpKind::Restart { lazy: sw.rng.chance(1, 2), damage: gen_damage(&mut sw.rng) } });
+        } else {
+            ops.push(gen_op(&mut sw, &mix, plan.store.key_len));
+        }
+    }
+    let uid = sw.uid();
+    if sweep {
+        let max_cuts = if profile.contains("full") { 6000 } else { 40 };
+        ops.push(Op { uid, think_ms: 0, kind: OpKind::RestartSweep { lazy: sw.rng.chance(1, 2), blob: sw.rng.below(8) as usize, max_cuts } });
+    } else {
+        ops.push(Op { uid, think_ms: 0, kind: OpKind::Restart { lazy: sw.rng.chance(1, 2), damage: gen_damage(&mut sw.rng) } });
+    }
+    // a few operations after the last reopen: new blobs must get fresh ids, writes must work
+    for _ in 0..sw.rng.range(1, 6) {
+        ops.push(gen_op(&mut sw, &mix, plan.store.key_len));
+    }
+    let mut s = SessionPlan::sequential(ops);
+    s.lazy_init = sw.rng.chance(1, 5);
+    plan.sessions.push(s);
+    plan
+}
+
 pub fn gen_plan(property: &str, profile: &str, seed: u64) -> Plan {
     let base = profile.split('+').next().unwrap_or(profile);
     match base {
         "seq" | "seq-maint" | "seq-manyversions" | "seq-deepindex" | "seq-filter" => gen_seq(property, profile, seed),
+        "restart" | "restart-sweep" | "restart-sweep-full" => gen_restart(property, profile, seed),
         _ => crate::gen2::gen_plan2(property, profile, seed),
     }
 }
